@@ -49,11 +49,16 @@ def emit_scad_xml(m):
         lines.append('  </objects>')
     for t in m.attackers:
         lines.append(f'  <objects description="" id="{int(t.id)}" name={quoteattr(str(t.name))} metaConcept="Attacker" template="false"><evidenceAttributes metaConcept="EntryPoint"/></objects>')
+    spell = 0
     for assoc in m.associations:
         lf, rf = m.get_association_field_names(assoc)
         for x in getattr(assoc, lf):
             for y in getattr(assoc, rf):
-                lines.append(f'  <associations description="" sourceObject="{int(y.id)}" targetObject="{int(x.id)}" sourceProperty="{lf}" targetProperty="{rf}"/>')
+                # securiCAD writes a link from either end: (source y, target x, properties lf / rf) and
+                # (source x, target y, properties rf / lf) are the same link
+                spell += 1
+                if spell % 3 != 2: lines.append(f'  <associations description="" sourceObject="{int(y.id)}" targetObject="{int(x.id)}" sourceProperty="{lf}" targetProperty="{rf}"/>')
+                else: lines.append(f'  <associations description="" sourceObject="{int(x.id)}" targetObject="{int(y.id)}" sourceProperty="{rf}" targetProperty="{lf}"/>')
     flip = False
     for t in m.attackers:
         for a, steps in t.entry_points:
@@ -81,6 +86,19 @@ def check_case(spec, ops, which, mo, rnd):
             path = os.path.join(d, 'old.' + fmt)
             from maltoolbox.file_utils import save_dict_to_file
             doc = json.load(open(native_path))
+            if rnd.random() < 0.3:
+                # ids as exported from securiCAD: 64-bit numbers that no float represents exactly.  Both files are
+                # renumbered alike (0 stays 0, signs are kept).
+                big = lambda i: int(i) * 9007199254740993
+                doc['assets'] = {str(big(k)): v for k, v in doc['assets'].items()}
+                for e in doc['associations']:
+                    cls = [k for k in e if k != 'extras'][0]
+                    e[cls] = {f: [big(i) for i in ids] for f, ids in e[cls].items()}
+                for t in doc['attackers'].values():
+                    t['entry_points'] = {str(big(k)): v for k, v in t['entry_points'].items()}
+                renum = os.path.join(d, 'native_big.json'); json.dump(doc, open(renum, 'w'))
+                ref = Model.load_from_file(renum, im.fac)
+                mo = None
             if rnd.random() < 0.5 and len(doc['assets']) >= 2:
                 # a hand-edited file: assets listed in another order, and (sometimes) two assets with the same name —
                 # both loaders resolve the clash in the order of the file.  The equivalent native file is edited alike.
